@@ -314,29 +314,39 @@ def malformed_model_cases(rng, tier):
 # ------------------------------------------------------------------------------------------------
 # production curves: both configurations through subprocess workers
 def run_workers(ops, configs=("openssl", "none")):
-    """returns {config: [canonical result per op]}; the two interpreters run concurrently"""
-    procs = {}
-    blob = json.dumps(ops).encode()
+    """returns {config: [canonical result per op]}; one interpreter per (configuration, curve), all concurrent"""
+    groups = {}
+    for i, op in enumerate(ops):
+        key = op[1] if len(op) > 1 and isinstance(op[1], str) else "-"
+        groups.setdefault(key if len(ops) > 40 else "-", []).append(i)
+    procs = []
     for cfg in configs:
-        env = dict(os.environ)
-        env["PYCOIN_NATIVE"] = cfg
-        env["PYTHONPATH"] = REPO + ":" + os.path.join(VERIF, "harness")
-        procs[cfg] = subprocess.Popen([PY, "-W", "ignore", WORKER], stdin=subprocess.PIPE, stdout=subprocess.PIPE,
-                                      stderr=subprocess.PIPE, env=env)
-        procs[cfg].stdin.write(blob)
-        procs[cfg].stdin.close()
-    out = {}
+        for key, idx in groups.items():
+            env = dict(os.environ)
+            env["PYCOIN_NATIVE"] = cfg
+            env["PYTHONPATH"] = REPO + ":" + os.path.join(VERIF, "harness")
+            p = subprocess.Popen([PY, "-W", "ignore", WORKER], stdin=subprocess.PIPE, stdout=subprocess.PIPE,
+                                 stderr=subprocess.PIPE, env=env)
+            procs.append((cfg, idx, p, json.dumps([ops[i] for i in idx]).encode()))
+    import threading
+    out = {cfg: [None] * len(ops) for cfg in configs}
     info = {}
-    for cfg, p in procs.items():
-        data = p.stdout.read()
-        err = p.stderr.read()
-        p.wait()
+
+    def pump(cfg, idx, p, blob):
+        data, err = p.communicate(blob)
         try:
             d = json.loads(data)
-            out[cfg] = d["results"]
+            res = d["results"]
             info[cfg] = d["native_classes"]
         except Exception:
-            out[cfg] = ["!WORKER-DIED " + err.decode("utf8", "replace")[-200:].replace("\n", " ")] * len(ops)
+            res = ["!WORKER-DIED " + err.decode("utf8", "replace")[-200:].replace("\n", " ")] * len(idx)
+        for i, r in zip(idx, res):
+            out[cfg][i] = r
+    ths = [threading.Thread(target=pump, args=t) for t in procs]
+    for t in ths:
+        t.start()
+    for t in ths:
+        t.join()
     run_workers.last_info = info
     return out
 
@@ -431,16 +441,6 @@ def prod_model_ops(rng, tier):
     return res
 
 
-def known_unreduced_identity(op):
-    """exclusion predicate of the known finding `unreduced-times-one`: scalar = 1 (mod n) applied to a finite point
-    whose coordinates are not reduced mod p.  Pure Python returns the operand as given, OpenSSL the reduced pair."""
-    if op[0] not in ("multiply", "rmultiply", "curve_multiply") or not isinstance(op[1], str) or op[2] is None:
-        return False
-    p, a, b, n, G, bits = prod_params(op[1])
-    P = op[2]
-    return op[3] % n == 1 and not (0 <= P[0] < p and 0 <= P[1] < p)
-
-
 def prod_model_cases(rng, tier):
     items = prod_model_ops(rng, tier)
     ops = [op for _, op, _ in items]
@@ -457,8 +457,6 @@ def prod_model_cases(rng, tier):
             f = out["none"][len(items) + PROD.index(name)]
             blind = int(f.rstrip(")").split(" ")[-1][1:], 16)
             line = "gmul %s %s" % (gv(p, a, b, n, G, bits, blind), arg(op[2]))
-        if ro != rn and known_unreduced_identity(op):
-            ro = rn        # known finding (reported by the direct checks): the model follows the pure-Python code
         impl = ro if ro == rn else "!CONFIG-MISMATCH openssl=%s none=%s" % (ro, rn)
         cases.append((expensive, Case(line, (lambda impl=impl: impl), meta={"op": op})))
     # expensive lines first so that the driver's round-robin spreads them over its workers
@@ -572,7 +570,8 @@ def chk_toy_generator(inp):
     g = c02_ops.make_generator(p, a, b, G, n, inp["entropy"])
     c = Curve(p, a, b, n)
     Gp = c.Point(*G)
-    ks = list(range(-2 * n, 2 * n + 1)) + [2 ** 255 + 7, 2 ** 256 - 1, 2 ** 256, 2 ** 300 + 17, -2 ** 256 - 3]
+    ks = list(range(-2 * n, 2 * n + 1)) if inp.get("pfx", True) else list(inp.get("ks", []))
+    ks += [0, 1, -1, n - 1, n, n + 1, 2 ** 255 + 7, 2 ** 256 - 1, 2 ** 256, 2 ** 300 + 17, -2 ** 256 - 3]
     for k in ks:
         want = ref_mul(p, a, G, k % n)
         want = want if want is not None else (None, None)
@@ -651,8 +650,8 @@ def prod_judge(inp, res):
     if ro != rn:
         ops = prod_check_ops(inp)
         bad = [i for i in range(len(ro)) if ro[i] != rn[i]]
-        return {"kind": "backend-mismatch", "openssl": [ro[i] for i in bad], "none": [rn[i] for i in bad],
-                "all_known_unreduced_identity": all(known_unreduced_identity(ops[i]) for i in bad)}
+        return {"kind": "backend-mismatch", "ops": [ops[i][0] for i in bad], "openssl": [ro[i] for i in bad],
+                "none": [rn[i] for i in bad]}
     r = ro
     if kind == "add":
         P, Q = inp["P"], inp["Q"]
@@ -718,7 +717,7 @@ def prod_judge(inp, res):
 
 def prod_prop_inputs(rng, tier):
     inputs = []
-    nscal = 6 if tier == "quick" else 60
+    nscal = 3 if tier == "quick" else 40
     for name in PROD:
         p, a, b, n, G, bits = prod_params(name)
         pp = prod_points(name, rng)
@@ -740,7 +739,10 @@ def prod_prop_inputs(rng, tier):
             inputs.append({"curve": name, "kind": "gen", "k": k})
             inputs.append({"curve": name, "kind": "gen", "k": -k})
         inputs.append({"curve": name, "kind": "mul", "P": None, "k": 5})
-        inputs.append({"curve": name, "kind": "mul", "P": Gu, "k": 1})
+        inputs.append({"curve": name, "kind": "mul", "P": (G[0] + p, G[1]), "k": 1})
+        inputs.append({"curve": name, "kind": "mul", "P": (G[0], G[1] - p), "k": 2})
+        inputs.append({"curve": name, "kind": "mul", "P": (G[0] - p, G[1]), "k": 3})
+        inputs.append({"curve": name, "kind": "mul", "P": (G[0] + 2 * p, G[1] + p), "k": n + 1})
         for x in [G[0], Q[0], 0, 1, 2, 3, 4, 5, p - 1] + [rng.getrandbits(255) for _ in range(20 if tier == "quick" else 300)]:
             inputs.append({"curve": name, "kind": "pfx", "x": x})
         for _ in range(3 if tier == "quick" else 30):
@@ -756,6 +758,7 @@ def chk_prod(inp):
 def toy_prop_inputs(rng, tier):
     res = []
     sel = toy_selection(rng, tier)
+    seen_p = set()
     for (p, a, b, n) in sel:
         npts = len(curve_points(p, a, b)) + 1
         assoc_all = p <= (23 if tier == "quick" else 47)
@@ -765,9 +768,12 @@ def toy_prop_inputs(rng, tier):
         for i in idx:
             res.append(("toy_scalar", {"curve": [p, a, b, n], "i": i}))
         pts = curve_points(p, a, b)
-        for j, ent in enumerate(ENTROPIES if p <= 23 else ENTROPIES[:2]):
+        first = p not in seen_p
+        seen_p.add(p)
+        for j, ent in enumerate(ENTROPIES if (first or tier == "thorough") else ENTROPIES[:2]):
             G = pts[rng.randrange(len(pts))]
-            res.append(("toy_generator", {"curve": [p, a, b, n], "G": list(G), "entropy": ent, "pfx": j == 0}))
+            res.append(("toy_generator", {"curve": [p, a, b, n], "G": list(G), "entropy": ent, "pfx": j == 0,
+                                          "ks": [rng.randrange(-2 * n, 2 * n + 1) for _ in range(6 if tier == "quick" else 60)]}))
     return res
 
 
@@ -801,18 +807,13 @@ def replay_input(check, inp):
 
 
 def classify(pc, r):
-    if pc.name == "prod" and r.get("kind") == "backend-mismatch" and r.get("all_known_unreduced_identity"):
-        return "unreduced-times-one"
+    """no open finding: the two defects found while building this check (pure-Python multiply returned an unreduced
+    operand for scalars = 1 mod n; OpenSSL multiply leaked the sign of a negative input coordinate) are fixed in /repo
+    (bbdd27a, bc79bbc) and their inputs stay in the generators as regression cases"""
     return None
 
 
-def _replay_unreduced_times_one():
-    from pycoin.ecdsa.secp256k1 import secp256k1_generator as g
-    p = g.p()
-    return chk_prod({"curve": "secp256k1", "kind": "mul", "P": [g[0] + p, g[1]], "k": 1})
-
-
-KNOWN_REPLAYS = {"unreduced-times-one": _replay_unreduced_times_one}
+KNOWN_REPLAYS = {}
 
 
 def search(rng, tier, disagreements, known_ids):
